@@ -39,10 +39,10 @@ Proof.
     + intros Hq. apply cbrt_tol in Hq. unfold tol in Hq. exfalso; lra.
   - do 4 eexists; split; [reflexivity|]. split.
     + intros Hq. exfalso. rewrite Hq in *. rewrite Rcbrt_0, Rabs_R0 in *. lra.
-    + intros Hq. apply cbrt_tol in Hq. split; [reflexivity|]. left. split; [|reflexivity].
+    + intros Hq. apply cbrt_tol in Hq. split; [reflexivity|]. left. split; [|first [reflexivity | ring]].
       apply Hsr; [unfold sh; field; nz | unfold sh; field; nz | assumption].
   - do 4 eexists; split; [reflexivity|]. split.
     + intros Hq. exfalso. rewrite Hq in *. rewrite Rcbrt_0, Rabs_R0 in *. lra.
-    + intros Hq. apply cbrt_tol in Hq. split; [reflexivity|]. right. split; [|reflexivity].
+    + intros Hq. apply cbrt_tol in Hq. split; [reflexivity|]. right. split; [|first [reflexivity | ring]].
       apply Hsr; [unfold sh; field; nz | unfold sh; field; nz | assumption].
 Qed.
